@@ -753,6 +753,8 @@ class Engine:
             loc = a[1]
             root, path = loc
             done = False
+            # remember what the pointee held before the call (iterator creation terms, etc.)
+            st.events[k].setdefault('pre', {})[i] = self.read(st, loc)
             for (r, q) in list(st.store):
                 if r != root:
                     continue
